@@ -226,7 +226,7 @@ class FormatterFactory:
                 kwargs['validate'] = False
                 formatter = self.factory(self.format, self.dateformat,
                                          style='$', **kwargs)
-                assert formatter._style._fmt == self.format
+                assert formatter._style._fmt == stylist._fmt
                 formatter._style = stylist
         else:
             formatter = self.factory(self.format, self.dateformat)
